@@ -82,6 +82,12 @@ check("C17", "model_checking",
       "bounded-exhaustive input/configuration enumeration against running endpoints",
       "DESIGN.md §5 C17", "mc")
 
+check("C08", "model_checking",
+      "Every (element type of 14, length 0..64 and boundary lengths up to 65537 (0..4096 in thorough), rotation of the per-type boundary value set incl. NaN payloads/infinities/extremes, query length 0..64, receive-buffer misalignment 0..7 + owned dispatch, client form bulk/aligned/generic, route with_typed_slice/with_typed_slice_ref/with_typed) case: bulk bytes == generic encoding for non-empty slices, all encoder x decoder pairs bit-exact, streaming writers == builders, aligned form borrowed iff the payload address is aligned, wrong element type or format rejected; plus a loopback-TCP sweep with Client and AsyncClient.",
+      "beve itself is a trusted library. The generic->bulk direction for EMPTY vectors fails on the unchanged tree (six known-finding keys, defect D6).",
+      "bounded-exhaustive input enumeration with differential oracles between encoders/decoders/routes",
+      "DESIGN.md §5 C08", "mc")
+
 ALL = [f"C{i:02d}" for i in range(1, 20)]
 for pid in ALL:
     if pid not in CHECKS:
